@@ -21,12 +21,100 @@ Proof.
 Qed.
 
 
+(** ** the pre-check of [swap]: the count of the x-nodes that depend on [x + 1] *)
+Definition isdepb (s : st) (x : nat) (n : positive) : bool :=
+  match succ s !! n with
+  | Some t => bool_decide (t_lvl t = x ∧ ¬ indepS s (x + 1) (t_lo t) (t_hi t))
+  | None => false
+  end.
+Lemma isdepb_spec s x n : isdepb s x n = true ↔ isdep s x n.
+Proof.
+  unfold isdepb, isdep. destruct (succ s !! n) as [t|]; split.
+  - intros H%bool_decide_eq_true. exists t. by split.
+  - intros (t'&[= <-]&?&?). by apply bool_decide_eq_true.
+  - done.
+  - by intros (?&?&_).
+Qed.
+
+Lemma child_level_ok s v : valid s v → child_level v s = (Ok (lvl_of s v), s).
+Proof.
+  intros [Hv [t Ht]]. unfold child_level. rewrite decide_False by done.
+  unfold bind, getsucc, lvl_of. by rewrite Ht.
+Qed.
+
+Lemma dep_count_body s x u k : Inv s → (∃ t, succ s !! u = Some t ∧ t_lvl t = x) → x < nvars s →
+  (t <- getsucc u ;;
+   iv <- child_level (t_lo t) ;;
+   if decide (iv = x + 1) then ret (S k) else
+   iw <- child_level (t_hi t) ;;
+   if decide (iw = x + 1) then ret (S k) else ret k) s
+  = (Ok (if isdepb s x u then S k else k), s).
+Proof.
+  intros HI (t&Ht&Hl) Hx.
+  assert (Hu1 : u ≠ 1%positive).
+  { intros ->. rewrite (inv_term _ HI) in Ht. injection Ht as <-. cbn in Hl. lia. }
+  destruct (inv_node _ HI _ _ Ht Hu1) as (_&Hvl&_&Hvh&Hll&Hlh&_).
+  unfold isdepb. rewrite Ht.
+  assert (Hg : getsucc u s = (Ok t, s)) by (unfold getsucc; by rewrite Ht).
+  rewrite (bind_ok _ _ _ _ _ Hg).
+  rewrite (bind_ok _ _ _ _ _ (child_level_ok s _ Hvl)).
+  unfold indepS. case_decide as E1.
+  { rewrite bool_decide_eq_true_2; [done|]. split; [done|]. lia. }
+  rewrite (bind_ok _ _ _ _ _ (child_level_ok s _ Hvh)).
+  case_decide as E2.
+  { rewrite bool_decide_eq_true_2; [done|]. split; [done|]. lia. }
+  rewrite bool_decide_eq_false_2; [done|]. intros [_ Hn]. apply Hn. lia.
+Qed.
+
+Lemma dep_count_ok s x (Sx : gset positive) : Inv s → x < nvars s →
+  (∀ n, n ∈ Sx ↔ ∃ t, succ s !! n = Some t ∧ t_lvl t = x) →
+  ∃ k, dep_count (x + 1) Sx s = (Ok k, s) ∧
+       ∀ T : gset positive, (∀ n, n ∈ T ↔ isdep s x n) → size T = k.
+Proof.
+  intros HI Hx HSx.
+  assert (Hfold : ∀ (l : list positive) k0, NoDup l → (∀ n, n ∈ l → n ∈ Sx) →
+    foldM (fun (k : nat) u =>
+      t <- getsucc u ;;
+      iv <- child_level (t_lo t) ;;
+      if decide (iv = x + 1) then ret (S k) else
+      iw <- child_level (t_hi t) ;;
+      if decide (iw = x + 1) then ret (S k) else ret k) k0 l s
+    = (Ok (k0 + length (filter (fun n => isdepb s x n = true) l)), s)).
+  { induction l as [|u l IH]; intros k0 Hnd Hl.
+    - cbn. by rewrite Nat.add_0_r.
+    - apply NoDup_cons in Hnd as [Hu Hnd]. cbn [foldM].
+      rewrite (bind_ok _ _ _ _ _ (dep_count_body s x u k0 HI
+                 (proj1 (HSx u) (Hl u ltac:(left))) Hx)).
+      rewrite IH; [|done|intros n Hn; apply Hl; by right].
+      rewrite filter_cons. destruct (isdepb s x u) eqn:E.
+      + rewrite decide_True by done. cbn [length]. do 2 f_equal. lia.
+      + rewrite decide_False by done. done. }
+  eexists. split.
+  - unfold dep_count. apply Hfold; [apply NoDup_elements|]. intros n. by rewrite elem_of_elements.
+  - intros T HT. cbn.
+    assert (T = list_to_set (filter (fun n => isdepb s x n = true) (elements Sx))) as ->.
+    { apply stdpp.sets.set_eq. intros n. rewrite HT, elem_of_list_to_set, elem_of_list_filter,
+        elem_of_elements, isdepb_spec. split; [|tauto].
+      intros Hd. split; [done|]. apply HSx. destruct Hd as (t&?&?&_). eauto. }
+    rewrite size_list_to_set; [done|]. apply NoDup_filter, NoDup_elements.
+Qed.
+
+Lemma swap_fits_room s k : swap_fits (max_nodes s) (len s) k = true → room s (2 * k).
+Proof.
+  unfold swap_fits, room, len. destruct (max_nodes s); [|done].
+  intros H%bool_decide_eq_true. lia.
+Qed.
+Lemma swap_fits_false s k : swap_fits (max_nodes s) (len s) k = false → is_Some (max_nodes s).
+Proof. unfold swap_fits. destruct (max_nodes s); [eauto|done]. Qed.
+
+
 Theorem swap_correct s x al L r s' :
   Inv s → Counts s L → last_len s = None →
   x + 1 < nvars s →
   levels_ok s al →
   swap x (x + 1) (Some al) s = (r, s') →
   r = Err EOracle ∨
+  (r = Err ERuntime ∧ s' = s ∧ is_Some (max_nodes s)) ∨
   ∃ oldn newn al', r = Ok ((oldn, newn), al') ∧
     Inv s' ∧ Counts s' L ∧ levels_ok s' al' ∧ oldn = len s ∧ newn = len s' ∧
     (∀ v l, vars s !! v = Some l →
@@ -45,6 +133,15 @@ Proof.
   destruct (Hal x ltac:(lia)) as (Sx&HSx&HSxs).
   destruct (Hal (x + 1) Hy) as (Sy&HSy&HSys).
   rewrite HSx. cbn [of_opt]. rewrite (bind_ok _ _ s Sx s) by done.
+  (* the pre-check *)
+  destruct (dep_count_ok s x Sx HI ltac:(lia) HSxs) as (k&Hdc&Hk).
+  rewrite (bind_ok _ _ _ _ _ Hdc).
+  destruct (swap_fits (max_nodes s) (len s) k) eqn:Hfit; cbn [ensure]; cycle 1.
+  { cbn [bind raise]. intros [= <- <-]. right. left. split_and!; try done.
+    by apply (swap_fits_false s k). }
+  rewrite (bind_ok _ _ s tt s) by done.
+  assert (Hroom : dep_room s x).
+  { intros T HT. rewrite (Hk T HT). by apply swap_fits_room. }
   (* first oracle *)
   destruct (pop_order Sx s) as [ro sA] eqn:Epo.
   destruct (pop_order_spec Sx s ro sA Epo) as (EsA&EpA&HkA&Hro).
@@ -66,6 +163,7 @@ Proof.
   { intros n. by rewrite Hoys, HSys. }
   destruct (swap_loops s HI x Hy L HC Hll ox oy Hndx Hndy Hox Hoy sC)
     as (sD&sE&sF&dn&s6&G&XF&HrD&HrE&HrF&Hr6&HD).
+  { done. }
   { congruence. }
   { by etrans. }
   { intros t n. rewrite EpC. apply HpB. }
@@ -118,7 +216,7 @@ Proof.
     destruct (lvl_class s x s6 u t HM Ht) as [[E _]|(t0'&H0'&Hc)]; [congruence|].
     rewrite H0 in H0'. injection H0' as <-. destruct Hc as [[? ?]|[[? ?]|(?&?&?)]]; lia. }
   rewrite (bind_ok _ _ _ _ _ Hf3).
-  intros [= <- <-]. right. eexists _, _, _. split; [reflexivity|].
+  intros [= <- <-]. right. right. eexists _, _, _. split; [reflexivity|].
   split; [done|]. split; [done|]. split; [|split; [done|split; [done|]]].
   { (* levels_ok *)
     intros l Hl. rewrite Hnv8 in Hl. unfold levels_t in *.
